@@ -41,7 +41,7 @@ pub fn scenarios() -> Vec<Scenario> {
             "honest-small",
             "prover node -> serialised proof over a fault-free link -> verifier node, GenAir instances with trace 8..256, every field/hash/extension/option combination; verifier accepts, transcripts are equal replicas",
             run_c01_small,
-            12_000,
+            5_000,
             400_000,
         ),
         Scenario::new(
@@ -49,7 +49,7 @@ pub fn scenarios() -> Vec<Scenario> {
             "honest-medium",
             "same with traces up to 2^11 and widths up to 255 (crosses the FFT / Merkle / transposition / evaluator thresholds in the concurrent build)",
             run_c01_medium,
-            1_500,
+            700,
             40_000,
         ),
         Scenario::new(
@@ -57,7 +57,7 @@ pub fn scenarios() -> Vec<Scenario> {
             "honest-large",
             "same with traces up to 2^13 and LDE domains up to 2^18",
             run_c01_large,
-            150,
+            60,
             4_000,
         ),
         Scenario::new(
@@ -65,7 +65,7 @@ pub fn scenarios() -> Vec<Scenario> {
             "false-statement",
             "witness corrupted before commitment (cell flip at first / interior / last non-exempt / exempt / asserted step, row set, column shift, auxiliary cell flip) or verifier given skewed public inputs; statements the independent checker calls false must not verify",
             run_c02,
-            12_000,
+            6_000,
             300_000,
         ),
         Scenario::new(
